@@ -33,7 +33,7 @@ func ruleC01(c *Check) {
 	c.expiryScanGuard("C01.6")
 	c.custodyErrorsChecked("C01.11")
 	// a batch marked COMPLETED is not settled at expiry: that mark may only be written when nothing of the batch is pending
-	c.contextFieldRules("C01.6", map[string]bool{"batchstate": true, "state": true})
+	c.contextFieldRules("C01.6", map[string]bool{"batchstate": true, "state": true, "counts": true})
 }
 
 // pricingIdentity (C01.4, C06.8, C07.3): one pricing routine, same roles, recorded = charged.
